@@ -501,6 +501,8 @@ def run_lean_analysis(drv: Path, items: List[Tuple[Grammar, List[int], Dict[Tupl
     err = p.stderr if p.returncode != 0 else ''
     for l in p.stdout.splitlines():
         f = l.split()
+        if not f:
+            continue
         if f[0] == 'AN':
             an[(f[1], int(f[2]))] = (int(f[3]), int(f[4]))
             ae[(f[1], int(f[2]))] = {}
